@@ -32,6 +32,18 @@ B = [
  ("constant-time-compare", [("service_provider.go", '\t\t\tif response.InResponseTo == possibleRequestID {', '\t\t\tif subtle.ConstantTimeCompare([]byte(response.InResponseTo), []byte(possibleRequestID)) == 1 {'),
                             ("service_provider.go", '\t"crypto/sha256"\n', '\t"crypto/sha256"\n\t"crypto/subtle"\n')],
   ["C04"]),
+ ("idp-certs-cached-per-metadata-value", [("service_provider.go",
+   'func (sp *ServiceProvider) getIDPSigningCerts() ([]*x509.Certificate, error) {\n\tvar certStrs []string\n',
+   'var idpCertCache sync.Map // *EntityDescriptor -> []*x509.Certificate (a new metadata value is a new key)\n\nfunc (sp *ServiceProvider) getIDPSigningCerts() ([]*x509.Certificate, error) {\n\tif c, ok := idpCertCache.Load(sp.IDPMetadata); ok {\n\t\treturn c.([]*x509.Certificate), nil\n\t}\n\tcerts, err := sp.parseIDPSigningCerts()\n\tif err == nil {\n\t\tidpCertCache.Store(sp.IDPMetadata, certs)\n\t}\n\treturn certs, err\n}\n\nfunc (sp *ServiceProvider) parseIDPSigningCerts() ([]*x509.Certificate, error) {\n\tvar certStrs []string\n'),
+   ("service_provider.go", '\t"crypto/sha256"\n', '\t"crypto/sha256"\n\t"sync"\n')],
+  ["C01", "C18", "C03"]),
+ ("delete-service-defer-unlock", [("samlidp/service.go",
+   '\tvhook("lock-req", "cfg", &s.idpConfigMu)\n\ts.idpConfigMu.Lock()\n\tvhook("lock-acq", "cfg", &s.idpConfigMu)\n\tvhook("write", "sps", &s.idpConfigMu)\n\tdelete(s.serviceProviders, r.PathValue("id"))\n\tvhook("write-end", "sps", &s.idpConfigMu)\n\tvhook("unlock", "cfg", &s.idpConfigMu)\n\ts.idpConfigMu.Unlock()\n\n\tw.WriteHeader(http.StatusNoContent)\n}',
+   '\tfunc() {\n\t\tvhook("lock-req", "cfg", &s.idpConfigMu)\n\t\ts.idpConfigMu.Lock()\n\t\tvhook("lock-acq", "cfg", &s.idpConfigMu)\n\t\tdefer s.idpConfigMu.Unlock()\n\t\tdefer vhook("unlock", "cfg", &s.idpConfigMu)\n\t\tvhook("write", "sps", &s.idpConfigMu)\n\t\tdelete(s.serviceProviders, r.PathValue("id"))\n\t\tvhook("write-end", "sps", &s.idpConfigMu)\n\t}()\n\n\tw.WriteHeader(http.StatusNoContent)\n}')],
+  ["C20", "C19", "C05"]),
+ ("session-ids-hex", [("samlidp/session.go", 'base64.StdEncoding.EncodeToString(randomBytes(32))', 'hex.EncodeToString(randomBytes(32))'),
+                     ],
+  ["C19", "C20", "C07"]),
 ]
 def sh(cmd, cwd=None, env=None, timeout=7200):
     p = subprocess.run(cmd, shell=True, cwd=cwd, env=env or ENV, stdout=subprocess.PIPE, stderr=subprocess.STDOUT, text=True, timeout=timeout)
